@@ -80,6 +80,7 @@ func genLax(t *rapid.T) LaxCase {
 		}
 		forced = true
 	}
+	hugeBudget = 0
 	c.V = genVal(t, &c.T, 45, "")
 	if forced {
 		// the appended field always carries its malformation
@@ -130,6 +131,9 @@ func checkLax(t *testing.T, c LaxCase) harness.Verdict {
 	td := &c.T
 	ctx := newEncCtx()
 	d1, exp := ctx.field(td, &c.V, mctx{})
+	if len(d1) == 0 {
+		c.Rest = nil // absent optional top-level element: empty input
+	}
 	input := append(append([]byte{}, d1...), c.Rest...)
 	where := fmt.Sprintf("type=%s params=%q input=%s", td.GoType(forkLib), td.Params(), short(input))
 	tr := judge(&v, td, input)
